@@ -1,5 +1,7 @@
 import Martian.Dataflow
 import Martian.Resolver
+import Martian.ResolverStatic
+import Martian.ResolverStaticCheck
 import Driver.Util
 
 /-!
@@ -9,6 +11,17 @@ Line-protocol handler for property C01.
        `diff` followed by up to 8 records `class|where|param|expected|observed`
        (TAB separated records; fields separated by U+001F)
   C01.den   <program> <observations>   → den's top outputs and instance args (debug)
+  C01.static <program> <observations | ->  → the two-phase resolver model on a PLAIN program:
+       `skip not-plain`, or TAB separated
+         static  frag=0|1  den=eq|neq|na  rt=ok|na|<class|where|param|expected|observed>  <canonical static phase>
+       frag: the decidable hypotheses of `resolver_refines_den_plain_checked` hold;
+       den:  twoPhase = den on the recorded outs (must be `eq` whenever frag=1: the theorem);
+       rt:   the model's run-time phase on the model's static phase against the OBSERVED
+             `_args` of every stage job and the observed top-level outs;
+       canonical static phase (compared by the harness with the real `MakeCallGraph`):
+         (cg (node FQID (in PARAM BASE MAPDIM ARRDIM REXP)*)* (out REXP))
+         REXP = (lit JV) | (arr REXP*) | (map (kv XKEY REXP)*) | (st (kv XKEY REXP)*) | (ref FQID NAME*)
+                | (split CALL REXP) | (merge CALL REXP) | (dis REXP REXP)      -- kv sorted by XKEY
 
 S-expression encoding (names raw, keys / scalar texts hex with prefix `x`):
   prog  = (prog (structs (s NAME P*)*) (callables C*) (top CALL))
@@ -291,8 +304,87 @@ def checkAll (P : Program) (obs : Obs) : List String × Nat :=
       ((fieldsOf obs.top).filter fun kv => !obs.skip.contains kv.1)).toList
   (jobDiffs ++ missing ++ joinDiffs ++ topDiff, insts.length)
 
+/-! ## the two-phase resolver model (plain programs) -/
+
+section static
+open Martian.ResolverStatic Martian.ResolverForks
+
+def hexOfStr (s : String) : String :=
+  let hexd (n : Nat) : Char := if n < 10 then Char.ofNat (48 + n) else Char.ofNat (87 + n)
+  "x" ++ String.ofList (s.toUTF8.toList.flatMap fun b => [hexd (b.toNat / 16), hexd (b.toNat % 16)])
+
+partial def printJV : J → String
+  | .null => "n"
+  | .dnull => "d"
+  | .atom s => "(a " ++ hexOfStr s ++ ")"
+  | .arr xs => "(l" ++ String.join (xs.map fun x => " " ++ printJV x) ++ ")"
+  | .obj kvs => "(o" ++ String.join (kvs.map fun kv => " (kv " ++ hexOfStr kv.1 ++ " " ++ printJV kv.2 ++ ")") ++ ")"
+
+def insertSorted (x : String × String) : List (String × String) → List (String × String)
+  | [] => [x]
+  | y :: ys => if x.1 < y.1 then x :: y :: ys else y :: insertSorted x ys
+
+def sortKV (xs : List (String × String)) : List (String × String) := xs.foldr insertSorted []
+
+partial def printR : RExp → String
+  | .lit j => "(lit " ++ printJV j ++ ")"
+  | .arr xs => "(arr" ++ String.join (xs.map fun x => " " ++ printR x) ++ ")"
+  | .map kvs => "(map" ++ kvText kvs ++ ")"
+  | .struct kvs => "(st" ++ kvText kvs ++ ")"
+  | .ref node _ path => "(ref " ++ node ++ String.join (path.map fun p => " " ++ p) ++ ")"
+  | .split c _ e => "(split " ++ c ++ " " ++ printR e ++ ")"
+  | .merge c _ e => "(merge " ++ c ++ " " ++ printR e ++ ")"
+  | .disabled d v => "(dis " ++ printR d ++ " " ++ printR v ++ ")"
+where
+  kvText (kvs : List (String × RExp)) : String :=
+    String.join ((sortKV (kvs.map fun kv => (hexOfStr kv.1, printR kv.2))).map fun kv =>
+      " (kv " ++ kv.1 ++ " " ++ kv.2 ++ ")")
+
+def fqid (path : List String) : String := ".".intercalate path
+
+def printStatic (s : RB × List SNode) : String :=
+  "(cg" ++ String.join (s.2.map fun n =>
+    " (node " ++ fqid n.path ++ String.join (n.inputs.map fun kv =>
+      s!" (in {kv.1} {kv.2.ty.base} {kv.2.ty.mapDim} {kv.2.ty.arrDim} " ++ printR kv.2.exp ++ ")") ++ ")") ++
+  " (out " ++ printR s.1.exp ++ "))"
+
+def storeOfObs (outs : List (InstKey × J)) : Store :=
+  { outs := fun node _ => ((outs.find? fun o => fqid o.1.path == node).map (·.2)).getD .null
+    idx := fun _ _ => [] }
+
+def staticReply (P : Program) (obs : Option Obs) : String :=
+  if !Program.plain P then "skip not-plain" else
+  let s := staticProgram P fqid
+  let frag := wellTypedB P && acyclicB P.table
+  let (denV, rtV) :=
+    match obs with
+    | none => ("na", "na")
+    | some obs =>
+      let ρ := storeOfObs obs.outs
+      let O : Oracle := fun k => (obs.outs.find? fun o => o.1.path == k.path).map (·.2)
+      let d := den P O
+      let t := twoPhase P fqid ρ
+      let same := render d.1 == render t.1 && d.2.length == t.2.length &&
+        (d.2.zip t.2).all fun p => renderKey p.1.key == renderKey p.2.key && render p.1.args == render p.2.args
+      let jobDiff := obs.jobs.findSome? fun j =>
+        if j.chunk then none else
+        match t.2.find? (fun i => i.key.path == j.inst.path) with
+        | none => some (mkDiff "rt-unexpected-node" j.key (renderKey j.inst) .dnull j.args)
+        | some i => diffRecord "rt-args" j.key (fieldsOf i.args) (fieldsOf j.args)
+      let topDiff := diffRecord "rt-top-outs" P.top.id
+        ((fieldsOf t.1).filter fun kv => !obs.skip.contains kv.1)
+        ((fieldsOf obs.top).filter fun kv => !obs.skip.contains kv.1)
+      (if same then "eq" else "neq", match jobDiff.orElse (fun _ => topDiff) with | some d => d | none => "ok")
+  "\t".intercalate ["static", s!"frag={if frag then 1 else 0}", "den=" ++ denV, "rt=" ++ rtV, printStatic s]
+
+end static
+
 def handle (op : String) (args : List String) : Option String :=
   match op, args with
+  | "static", [p, o] => do
+    let P ← pProg (← parseSX p)
+    let obs ← if o == "-" then some none else (pObs (← parseSX o)).map some
+    pure (staticReply P obs)
   | "check", [p, o] => do
     let P ← pProg (← parseSX p)
     let obs ← pObs (← parseSX o)
